@@ -73,7 +73,7 @@ template <class Q> std::string run(Q &q, uint64_t n, uint64_t seed, unsigned int
     if (!r.prod_done) pthread_kill(pt, SIGUSR1);
     if (!r.cons_done) pthread_kill(ct, SIGUSR1);
     usleep(interval_us);
-    if (std::chrono::steady_clock::now() - t0 > std::chrono::seconds(25)) { hang = true; break; }
+    if (std::chrono::steady_clock::now() - t0 > std::chrono::seconds(150)) { hang = true; break; }
   }
   if (hang) {
     // the threads cannot be joined; report and leave the process (the driver is restarted by the caller)
